@@ -110,7 +110,7 @@ AckClear ==
   /\ UNCHANGED <<bi, live, ann, lann, subm, dlv, replaced, bad>>
 
 \* ---- walking the outputs of one session call: state = [ann, dlv, bad]
-StepOut(c, s, it) ==
+StepOut(c, s, it, dlvAll) ==
   CASE it.t = "opened" -> [s EXCEPT !.ann = [t |-> "opened", v |-> it.v]]
     [] it.t = "closed" -> [s EXCEPT !.ann = [t |-> "closed", v |-> 0]]
     [] it.t = "recv" ->
@@ -123,15 +123,15 @@ StepOut(c, s, it) ==
              b5 == IF it.mid >= 1 /\ m.rel # "cur" THEN {<<"C20", "a message stamped with an epoch other than the server's was forwarded", c>>} ELSE {}
          IN [s EXCEPT !.dlv = @ \cup {it.v}, !.bad = @ \cup b1 \cup b2 \cup b3 \cup b4 \cup b5]
     [] it.t = "ack" ->
-         LET ok == \E x \in Calls : Reverse(x, c) /\ <<x, it.v>> \in acks /\ it.v \in dlv[x]
+         LET ok == \E x \in Calls : Reverse(x, c) /\ <<x, it.v>> \in acks /\ it.v \in dlvAll[x]
          IN IF ok THEN s ELSE [s EXCEPT !.bad = @ \cup {<<"C21", "ack forwarded for a message the partner was never handed or never acked", c>>}]
     [] it.t = "clear" ->
          LET ok == (\E x \in Calls : Reverse(x, c) /\ <<x, it.v>> \in clears) /\ it.v \in s.dlv
          IN IF ok THEN s ELSE [s EXCEPT !.bad = @ \cup {<<"C21", "clear forwarded for a message that was not delivered / not cleared by the partner", c>>}]
     [] OTHER -> [s EXCEPT !.bad = @ \cup {<<"C20", "unknown response type", c>>}]
 
-RECURSIVE Walk(_, _, _, _)
-Walk(c, s, items, i) == IF i > Len(items) THEN s ELSE Walk(c, StepOut(c, s, items[i]), items, i + 1)
+RECURSIVE Walk(_, _, _, _, _)
+Walk(c, s, items, i, dlvAll) == IF i > Len(items) THEN s ELSE Walk(c, StepOut(c, s, items[i], dlvAll), items, i + 1, dlvAll)
 
 RECURSIVE LWalk(_, _, _)
 LWalk(s, items, i) == IF i > Len(items) THEN s
@@ -140,7 +140,9 @@ LWalk(s, items, i) == IF i > Len(items) THEN s
 Q ==
   /\ Is("q")
   /\ LET outs == Ev.outs  rets == Ev.rets  snap == Ev.snap
-         w == [c \in Calls |-> Walk(c, [ann |-> ann[c], dlv |-> dlv[c], bad |-> {}], outs[c], 1)]
+         \* deliveries of this window count for acks observed in the same window (cross-call order inside a window is unknown)
+         dlvAll == [c \in Calls |-> dlv[c] \cup {outs[c][i].v : i \in {j \in 1..Len(outs[c]) : outs[c][j].t = "recv"}}]
+         w == [c \in Calls |-> Walk(c, [ann |-> ann[c], dlv |-> dlv[c], bad |-> {}], outs[c], 1, dlvAll)]
          lw == [x \in LCalls |-> LWalk(lann[x], outs[x], 1)]
          live2 == [c \in Calls \cup LCalls |-> IF rets[c] # "" THEN "done" ELSE live[c]]
          running(c) == live2[c] = "run"
